@@ -2,17 +2,21 @@
 """Apply every kept seeded change to /repo in turn, run all quick checks, record which ones report a
 violation, revert.  Writes seeded/RESULTS.md and updates each meta.json (caught_by_quick_checks)."""
 import json, os, subprocess, sys, glob, time
-V = "/verif"
+V = os.environ.get("MX_VERIF", "/verif")
+REPO = os.environ.get("MX_REPO", "/repo")
 ids = [json.loads(l)["id"] for l in open(f"{V}/properties.jsonl")]
 only = sys.argv[1:]
 rows = []
-assert subprocess.run(["git", "-C", "/repo", "status", "--short"], capture_output=True, text=True).stdout.strip() == "", "/repo not clean"
-for d in sorted(glob.glob(f"{V}/seeded/C*-*")):
+assert subprocess.run(["git", "-C", REPO, "status", "--short"], capture_output=True, text=True).stdout.strip() == "", "/repo not clean"
+dirs = sorted(glob.glob(f"{V}/seeded/C*-*")) + sorted(glob.glob(f"{V}/mutants/C*.diff"))
+for d in dirs:
     name = os.path.basename(d)
     if only and not any(name.startswith(o) for o in only):
         continue
-    meta = json.load(open(f"{d}/meta.json"))
-    r = subprocess.run(["git", "-C", "/repo", "apply", f"{d}/patch.diff"])
+    is_mut = d.endswith(".diff")
+    patch = d if is_mut else f"{d}/patch.diff"
+    meta = {"property": name[:3]} if is_mut else json.load(open(f"{d}/meta.json"))
+    r = subprocess.run(["git", "-C", REPO, "apply", patch])
     if r.returncode != 0:
         rows.append((name, "PATCH DOES NOT APPLY", [], []))
         continue
@@ -20,20 +24,21 @@ for d in sorted(glob.glob(f"{V}/seeded/C*-*")):
     t0 = time.time()
     try:
         for pid in ids:
-            p = subprocess.run([f"{V}/check", pid, "quick"], capture_output=True, text=True, cwd=V, timeout=1200)
+            p = subprocess.run([f"{V}/check", pid, "quick"], capture_output=True, text=True, cwd=V, timeout=1200, env=dict(os.environ, VERIF_REPO=REPO))
             if p.returncode == 1 and "VIOLATION" in p.stdout:
                 caught.append(pid)
             elif p.returncode != 0:
                 broken.append(f"{pid}(rc={p.returncode})")
     finally:
-        subprocess.run(["git", "-C", "/repo", "checkout", "--", "."])
+        subprocess.run(["git", "-C", REPO, "checkout", "--", "."])
     meta["caught_by_quick_checks"] = caught
     meta["matrix_run"] = {"all_quick_checks_run": True, "inconclusive": broken, "seconds": round(time.time() - t0)}
-    json.dump(meta, open(f"{d}/meta.json", "w"), indent=1)
+    if not is_mut:
+        json.dump(meta, open(f"{d}/meta.json", "w"), indent=1)
     rows.append((name, "caught" if meta["property"] in caught else "MISSED by its own property's check", caught, broken))
     print(name, caught, broken, flush=True)
-with open(f"{V}/seeded/RESULTS.md", "w") as f:
-    f.write("# Seeded changes vs quick checks\n\nEach change was applied to /repo (`git -C /repo apply`), all 20 quick checks were run, and /repo was reverted.\n\n| seeded change | own property | quick checks reporting a VIOLATION | inconclusive |\n|---|---|---|---|\n")
+with open(f"{V}/seeded/RESULTS.md" if not only else f"{V}/seeded/RESULTS-partial.md", "w") as f:
+    f.write("# Seeded changes vs quick checks\n\nEach change (seeded/: from independent sub-agents; mutants/: hand-written, kept only if the 236 tests still pass) was applied to the repository (`git -C /repo apply`), all 20 quick checks were run, and /repo was reverted.\n\n| seeded change | own property | quick checks reporting a VIOLATION | inconclusive |\n|---|---|---|---|\n")
     for name, st, caught, broken in rows:
         f.write(f"| {name} | {st} | {', '.join(caught) or '-'} | {', '.join(broken) or '-'} |\n")
 print("done")
